@@ -148,6 +148,11 @@ type issuer struct {
 	// kick: poked when a renewal request is about to return, so that a consumer asks for the SVID at the
 	// very moment the rotation publishes the new one
 	kick chan struct{}
+	// renewalReturned: told (non-blocking) whenever a renewal request (k >= 1) is about to return; true = a usable answer
+	renewalReturned chan bool
+	// probeOff: while the harness itself is taking quiescence snapshots the issuer does not (two
+	// goroutines waiting for each other to become quiescent would spin for ever)
+	probeOff atomic.Bool
 	// withDir: an identity directory is configured, so every fetch also asks the trust-anchor source
 	withDir bool
 	// anchorsFail: the next CurrentTrustAnchors call fails (scripted "anchors-err" outcome)
@@ -155,6 +160,15 @@ type issuer struct {
 	// anchorsUseKit: the trust-anchor source is itself built on the library - it PEM-encodes its CA with
 	// kit's crypto/pem on every call (and so touches whatever package-level state that encoder has)
 	anchorsUseKit bool
+}
+
+func (is *issuer) tellRenewalReturned(ok bool) {
+	if is.renewalReturned != nil {
+		select {
+		case is.renewalReturned <- ok:
+		default:
+		}
+	}
 }
 
 func (is *issuer) poke() {
@@ -186,7 +200,7 @@ func (is *issuer) request(ctx context.Context, csrDER []byte) ([]*x509.Certifica
 			<-is.gate
 		}
 	} else if !is.realtime {
-		if is.probe != nil {
+		if is.probe != nil && !is.probeOff.Load() {
 			// a real issuer client authenticates the renewal with the current identity, and other
 			// consumers keep asking for the SVID while the request is on its way
 			var lastGood int64
@@ -201,6 +215,12 @@ func (is *issuer) request(ctx context.Context, csrDER []byte) ([]*x509.Certifica
 		}
 		time.Sleep(time.Millisecond)
 		defer is.poke()
+		defer func() {
+			is.mu.Lock()
+			ok := r.ok
+			is.mu.Unlock()
+			is.tellRenewalReturned(ok)
+		}()
 	}
 	csr, err := x509.ParseCertificateRequest(csrDER)
 	if err != nil {
@@ -366,7 +386,7 @@ func TestCheck(t *testing.T) {
 	defer rec.Close()
 	initCA()
 	rec.Note("rule", "a case is one scenario against the real SPIFFE object in a synctest bubble with a scripted issuer signing real SVIDs: (order) each of the six first-call orders of Run / Ready / GetX509SVID from separate goroutines x initial fetch succeeding or failing x consumer additionally parked inside GetX509SVID while it holds the read lock; (renewal) a seeded script of 3-8 issuer outcomes (validity windows from 2 s to 30 days, already past half-life, expired, not yet valid; failures: an issuer error, an empty answer, or a signed chain without a usable SPIFFE ID) with the virtual clock advanced in seeded steps of seconds to hours, optionally writing the identity to a directory and rotating the trust anchors. Non-trivial = the issuer received at least one request; distinct = distinct scenario description.")
-	rec.Note("require", []string{"order.get_first", "order.ready_first", "order.run_first", "order.initial_fetch_failed", "order.second_run_refused", "order.run_context_ended_during_initial_fetch", "order.consumer_parked_with_rlock", "renewal.requests", "renewal.on_time", "renewal.retry_after_failure", "renewal.served_latest_checked", "renewal.fresh_keys_checked", "renewal.unusable_answer_scripted", "renewal.get_during_inflight_renewal", "renewal.consumer_get_at_publication", "files.sets_checked", "anchors.source_uses_kit_pem_encoder", "files.undisturbed_after_failed_fetch"})
+	rec.Note("require", []string{"order.get_first", "order.ready_first", "order.run_first", "order.initial_fetch_failed", "order.second_run_refused", "order.run_context_ended_during_initial_fetch", "order.consumer_parked_with_rlock", "renewal.requests", "renewal.on_time", "renewal.retry_after_failure", "renewal.served_latest_checked", "renewal.fresh_keys_checked", "renewal.unusable_answer_scripted", "renewal.get_during_inflight_renewal", "renewal.reader_parked_across_renewal", "renewal.consumer_get_at_publication", "files.sets_checked", "anchors.source_uses_kit_pem_encoder", "files.undisturbed_after_failed_fetch"})
 	ps := plans()
 	rec.Planned(len(ps))
 	for idx, pl := range ps {
@@ -636,7 +656,7 @@ func runRenewal(t *testing.T, idx int, rng *mon.RNG) {
 		defer os.RemoveAll(filepath.Dir(target))
 	}
 	res := mon.Bubble(t, func() {
-		is := &issuer{script: script, withDir: withDir, anchorsUseKit: idx%2 == 0}
+		is := &issuer{script: script, withDir: withDir, anchorsUseKit: idx%2 == 0, renewalReturned: make(chan bool, 256)}
 		w.is = is
 		var dp *string
 		if withDir {
@@ -800,6 +820,62 @@ func runRenewal(t *testing.T, idx int, rng *mon.RNG) {
 			}
 		}
 		check()
+		if idx%3 == 0 && !w.viol.Load() {
+			// a consumer is descheduled inside GetX509SVID while it holds the read lock (parked at the hook); a
+			// renewal completes meanwhile and waits for the write lock; when the consumer goes on, both must
+			// get through (a reader that takes the read lock a second time would deadlock behind the writer)
+			var want atomic.Bool
+			parked := make(chan struct{})
+			resume := make(chan struct{})
+			h := func(name string) {
+				if name == "getsvid.rlocked" && want.CompareAndSwap(true, false) {
+					close(parked)
+					<-resume
+				}
+			}
+			spiffe.VerifHook.Store(&h)
+			is.probeOff.Store(true)
+			for len(is.renewalReturned) > 0 {
+				<-is.renewalReturned
+			}
+			got := make(chan error, 1)
+			want.Store(true)
+			go func() { _, err := src.GetX509SVID(); got <- err }()
+			synctest.Wait()
+			select {
+			case <-parked:
+				w.step("consumer parked inside GetX509SVID holding the read lock; waiting for a renewal to complete")
+				for ok := range is.renewalReturned {
+					if ok {
+						break
+					}
+				}
+				q := mon.Quiesce()
+				rec.Count("renewal.reader_parked_across_renewal", 1)
+				if q.MutexBlocked > 0 {
+					rec.Count("renewal.publication_waited_for_parked_reader", 1)
+				}
+				close(resume)
+				q = mon.Quiesce()
+				select {
+				case err := <-got:
+					if err != nil {
+						w.violation("renewal/get-error", fmt.Sprintf("the parked consumer's GetX509SVID returned %v", err))
+					}
+				default:
+					w.violation("renewal/reader-and-renewal-deadlocked", fmt.Sprintf("a consumer was descheduled inside GetX509SVID while a renewal completed; after it went on neither gets through (every goroutine parked; mutex-blocked: %d %v)", q.MutexBlocked, q.MutexFrames))
+				}
+				if q.MutexBlocked > 0 && !w.viol.Load() {
+					w.violation("renewal/reader-and-renewal-deadlocked", fmt.Sprintf("goroutines are still waiting on the SPIFFE lock after the parked consumer went on: %v", q.MutexFrames))
+				}
+			default:
+				want.Store(false)
+				close(resume)
+			}
+			spiffe.VerifHook.Store(nil)
+			is.probeOff.Store(false)
+			check()
+		}
 		// drive the clock until the script (plus one) has been consumed
 		for iter := 0; iter < 400 && !w.viol.Load(); iter++ {
 			reqs := is.snapshot()
